@@ -68,6 +68,15 @@ def addBindOld (port : String) (m : List (String × List String)) (b : BindVal) 
 def listenersFor (port : String) (binds : List BindVal) : List (String × List String) :=
   if binds.isEmpty then [(lnAddr port "", [])] else binds.foldl (addBind port) []
 
+/-- the same with the `default_bind` global options: a site without `bind` uses ALL of them
+(`none`: the option is not used at all) -/
+def listenersForD (port : String) (dflt : Option (List BindVal)) (binds : List BindVal) : List (String × List String) :=
+  if binds.isEmpty then
+    match dflt with
+    | some ds => ds.foldl (addBind port) []
+    | none => [(lnAddr port "", [])]
+  else binds.foldl (addBind port) []
+
 def listenersForOld (port : String) (binds : List BindVal) : List (String × List String) :=
   if binds.isEmpty then [(lnAddr port "", [])] else binds.foldl (addBindOld port) []
 
@@ -81,14 +90,22 @@ def protsOrDefault (ps : List String) : List String := if ps.isEmpty then [""] e
 def addBlockProt (m : AddrMap) (addr prot : String) (i : Nat) : AddrMap :=
   setS m addr (setS ((lookupS m addr).getD []) prot ((((lookupS m addr).getD []).find? (·.1 == prot)).map (·.2) |>.getD [] |>.concat i))
 
-def addBlock (port : String) (m : AddrMap) (i : Nat) (s : BSite) : AddrMap :=
-  (sortKeys ((listenersFor port s.binds).map (·.1))).foldl (fun acc addr =>
-    (sortKeys (protsOrDefault ((lookupS (listenersFor port s.binds) addr).getD []))).foldl
+/-- one site block, given its listeners -/
+def addBlockL (ls : List (String × List String)) (m : AddrMap) (i : Nat) : AddrMap :=
+  (sortKeys (ls.map (·.1))).foldl (fun acc addr =>
+    (sortKeys (protsOrDefault ((lookupS ls addr).getD []))).foldl
       (fun acc2 prot => addBlockProt acc2 addr prot i) acc) m
+
+def addBlock (port : String) (m : AddrMap) (i : Nat) (s : BSite) : AddrMap :=
+  addBlockL (listenersFor port s.binds) m i
 
 def mapBlocks (port : String) : AddrMap → Nat → List BSite → AddrMap
   | m, _, [] => m
   | m, i, s :: rest => mapBlocks port (addBlock port m i s) (i + 1) rest
+
+def mapBlocksD (port : String) (dflt : Option (List BindVal)) : AddrMap → Nat → List BSite → AddrMap
+  | m, _, [] => m
+  | m, i, s :: rest => mapBlocksD port dflt (addBlockL (listenersForD port dflt s.binds) m i) (i + 1) rest
 
 /-! ### consolidateAddrMappings -/
 
@@ -154,5 +171,9 @@ def serverOf (p : Pairing) : BServer :=
 /-- the servers `srv0, srv1, …` of a Caddyfile made of these sites -/
 def serversOf (port : String) (sites : List BSite) : List BServer :=
   (consolidate (mapBlocks port [] 0 sites)).map serverOf
+
+/-- … with `default_bind` global options -/
+def serversOfD (port : String) (dflt : Option (List BindVal)) (sites : List BSite) : List BServer :=
+  (consolidate (mapBlocksD port dflt [] 0 sites)).map serverOf
 
 end CaddyModel.C16
